@@ -56,14 +56,15 @@ type Prog struct {
 	// named product types (for CHA-style interface resolution)
 	named []*types.TypeName
 
-	implCache  map[*types.Func][]*types.Func
-	cg         *CallGraph
-	entryHeld  map[string][]Held
-	wrappers   map[string]wrapperSum
-	fieldCache map[*types.Var][]types.Type
-	produce    map[string]map[string]bool
-	nFuncs     int
-	callSum    map[string]int
+	implCache   map[*types.Func][]*types.Func
+	cg          *CallGraph
+	entryHeld   map[string][]Held
+	wrappers    map[string]wrapperSum
+	fieldCache  map[*types.Var][]types.Type
+	produce     map[string]map[string]bool
+	nFuncs      int
+	callSum     map[string]int
+	lockHelpers map[string]*lockHelperSum
 }
 
 func shortPath(p string) string {
